@@ -525,6 +525,30 @@ def eps_heavy_nfa(rng, max_states: int = 4) -> NFA:
                initial_state=init, final_states=finals)
 
 
+def with_junk_row(rng, m, is_nfa: bool):
+    """The same automaton with an extra transition row keyed by a name that is not a state
+    (accepted by the library's validation; from_dfa / from_nfa must ignore it)."""
+    junk = rng.choice(["junk", ("j", 0), -7, frozenset({"j"})])
+    if junk in m.states:
+        return m
+    sy = sorted(m.input_symbols)
+    names = list(m.states)
+    tr = {k: dict(r) for k, r in m.transitions.items()}
+    if is_nfa:
+        row = {a: {rng.choice(names)} for a in sy if rng.random() < 0.6}
+        if rng.random() < 0.5:
+            row[""] = {rng.choice(names)}
+        items = list(tr.items())
+        items.insert(rng.randrange(len(items) + 1), (junk, row))
+        return NFA(states=set(m.states), input_symbols=set(m.input_symbols), transitions=dict(items),
+                   initial_state=m.initial_state, final_states=set(m.final_states))
+    row = {a: rng.choice(names) for a in sy if m.allow_partial is False or rng.random() < 0.6}
+    items = list(tr.items())
+    items.insert(rng.randrange(len(items) + 1), (junk, row))
+    return DFA(states=set(m.states), input_symbols=set(m.input_symbols), transitions=dict(items),
+               initial_state=m.initial_state, final_states=set(m.final_states), allow_partial=m.allow_partial)
+
+
 def all_eps_nfas_3() -> Any:
     """Every NFA with states {0,1,2}, initial 0, ε-edges any subset of the 9 pairs, at most one `a`-edge,
     every final set containing a state other than... (all 7 non-empty final sets)."""
@@ -613,9 +637,15 @@ def run(ctx: Ctx):
         check_source(ctx, eps_heavy_nfa(rng, big), True, "random_eps_heavy_nfa", all_ties=(i % 4 == 0))
     for i in range(ctx.budget(1500, 12000)):
         n = gen.rand_nfa(rng, big, alphabet=rng.choice(gen.ALPHABETS[:5]), min_states=1)
+        if i % 8 == 3:
+            n = with_junk_row(rng, n, True)
+            ctx.stat("source_with_junk_row")
         check_source(ctx, n, True, "random_nfa", all_ties=(i % 4 == 0))
     for i in range(ctx.budget(1500, 12000)):
         d = gen.rand_dfa(rng, big, alphabet=rng.choice(gen.ALPHABETS[:5]))
+        if i % 8 == 3:
+            d = with_junk_row(rng, d, False)
+            ctx.stat("source_with_junk_row")
         check_source(ctx, d, False, "random_dfa", all_ties=(i % 4 == 0))
     # 3. hand-made GNFAs (compound labels) and malformed definitions
     for _ in range(ctx.budget(1200, 15000)):
